@@ -40,6 +40,9 @@ META = {
 }
 
 ALPHA = b"abcdefghijklmnopqrstuvwxyz"
+# addon `.stream` values: nothing, True, bytes -> bytes, bytes -> list (may contain b""), hold back until the end,
+# length-changing, bytes -> generator (one-shot), bytes -> iterator (one-shot)
+ADDONS = ("none", "true", "upper", "list", "buffer", "bracket", "gen", "iter")
 SIZES = {"-": None, "3": 3, "5": 5, "8": 8, "1k": 1024}
 
 # ---------------------------------------------------------------------------------------------- instrumentation (read-only)
@@ -74,6 +77,11 @@ def make_stream(kind):
         return lambda c: c.upper()
     if kind == "list":
         return lambda c: [c[:1], c[1:]]
+    if kind == "gen":
+        # a one-shot iterable (generator) of the non-empty halves: a legal Iterable[bytes] that can be walked only once
+        return lambda c: (p for p in (c[:1], c[1:]) if p)
+    if kind == "iter":
+        return lambda c: iter([c] if c else [])
     if kind == "buffer":
         return _Buffer()
     if kind == "bracket":
@@ -597,7 +605,7 @@ def cases(tier):
             for L in ("-", "5", "1k"):
                 for S in ("-", "3", "8"):
                     for store in (False, True):
-                        for addon in ("none", "true", "upper", "list", "buffer", "bracket"):
+                        for addon in ADDONS:
                             if tier == "quick" and not _quick_keeps(proto, L, S, store, addon):
                                 continue
                             for fr in framings:
@@ -627,6 +635,8 @@ def _quick_keeps(proto, L, S, store, addon):
         return False
     if addon in ("upper", "list", "bracket") and (S != "-" or store):
         return False
+    if addon in ("gen", "iter") and (S != "-" or (addon == "iter" and (L != "-" or not store))):
+        return False  # the one-shot iterables stay crossed with store_streamed_bodies
     if store and addon == "true" and S != "-":
         return False
     return True
@@ -644,7 +654,7 @@ def run(ctx):
     ctx.bounds = {
         "directions": ["req", "resp"], "client_protocols": ["h1", "h2"], "framings": {"h1 req": ["cl", "chunked"], "h2 req": ["h2cl", "h2"], "resp": ["cl", "chunked", "eof"]},
         "body_size_limit": ["-", "5", "1k"], "stream_large_bodies": ["-", "3", "8"], "store_streamed_bodies": [False, True],
-        "addon_stream": ["none", "true", "upper", "list", "buffer", "bracket"],
+        "addon_stream": list(ADDONS),
         "sizes": "0, 1, L-1, L, L+1, 2L, S, S+1 (1k: 1023, 1024, 1025, 2048)", "max_parts": ctx.pick(2, 3),
         "chunking": "every composition into <= max_parts parts for n <= 6; for 7 <= n <= 12 every composition into <= 2 parts plus the 3-part ones with a cut within 1 of a threshold; 8 fixed splits for n >= 1023; h1 additionally all parts in one TCP segment; Expect: 100-continue variant",
         "quick_tier": "sub-product (see _quick_keeps): every value of every dimension occurs; thorough is the full product",
@@ -656,15 +666,9 @@ def run(ctx):
 
 
 def pool_size():
-    """Scheduling only (the split into 64 chunks and the merge order do not depend on it): on a machine that is already
-    oversubscribed a large forked pool was measured to be slower than a small one."""
-    import os
-
-    try:
-        load = os.getloadavg()[0]
-    except OSError:
-        load = 0.0
-    return par.NPROC if load < par.NPROC else max(2, par.NPROC // 4)
+    """Scheduling only (the split into 64 chunks and the merge order do not depend on it): on the build machine (a VM
+    with very expensive page faults after fork) a large forked pool was measured to be slower than a small one, loaded or not."""
+    return min(par.NPROC, 6)
 
 
 def replay(case, t, verbose=False):
